@@ -135,6 +135,19 @@ def check(index, ctx):
             tgt = w.ast.target if isinstance(w.ast, ast.AugAssign) else w.ast.targets[0]
             owner = norm_text(tgt.value) if isinstance(tgt, ast.Attribute) else None
 
+            # locals holding the current .grad (`g = key.grad`, `(g := getattr(key, "grad", None))`), bound once in the function
+            grad_aliases = {}
+            for a_ in ast.walk(fn.node):
+                tn, val = None, None
+                if isinstance(a_, ast.Assign) and len(a_.targets) == 1 and isinstance(a_.targets[0], ast.Name):
+                    tn, val = a_.targets[0].id, a_.value
+                elif isinstance(a_, ast.NamedExpr) and isinstance(a_.target, ast.Name):
+                    tn, val = a_.target.id, a_.value
+                if tn is not None and (norm_text(val) == f"{owner}.grad" or norm_text(val).replace('"', "'") == f"getattr({owner}, 'grad', None)"):
+                    n_binds = sum(1 for x in ast.walk(fn.node) if isinstance(x, ast.Name) and x.id == tn and isinstance(x.ctx, ast.Store))
+                    if n_binds == 1:
+                        grad_aliases[tn] = val
+
             def classify(t, owner=owner):
                 """E = '<owner>.grad exists (is a tensor)', H = 'hasattr(<owner>, "grad")'."""
                 if isinstance(t, ast.Compare) and len(t.ops) == 1 and isinstance(t.ops[0], (ast.Is, ast.IsNot)):
@@ -142,6 +155,10 @@ def check(index, ctx):
                     if isinstance(a, ast.Constant) and a.value is None:
                         a, b = b, a
                     if isinstance(b, ast.Constant) and b.value is None:
+                        if isinstance(a, ast.NamedExpr):
+                            a = a.value  # `(g := key.grad) is None` asks about key.grad
+                        elif isinstance(a, ast.Name) and a.id in grad_aliases:
+                            a = grad_aliases[a.id]
                         txt = norm_text(a)
                         if txt == f"{owner}.grad" or txt.replace('"', "'") == f"getattr({owner}, 'grad', None)":
                             return ("E", isinstance(t.ops[0], ast.IsNot))
